@@ -376,7 +376,8 @@ Definition gen_ocode (m : mode) (st : symtab) (dol : Z) (len : Z) (o : ocode) : 
                      | None => BytesDiag []       (* "not implemented" error from processOcode *)
                      end
   | OInt v => match v with
-              | Some z => if in_range 0 255 z then Bytes [205; z] else BytesDiag []     (* ParseUint(...,10,8) fails: error logged, nothing emitted *)
+              | Some z => if z =? 3 then Bytes [204]       (* INT 3 -> CC, the size pass 1 counted (fix 1a62747) *)
+                          else if in_range 0 255 z then Bytes [205; z] else BytesDiag []     (* ParseUint(...,10,8) fails: error logged, nothing emitted *)
               | None => BytesDiag []
               end
   | ORet => Bytes [195]
